@@ -4,7 +4,9 @@
    calls and returns:
 
      w.call / w.ret   a writer adds or removes one element (register / unregister a
-                      player, Register / Unregister a server, players.add / remove);
+                      player, Register / Unregister a server, players.add / remove), or
+                      tries to add one that is present and is refused ("dup": a duplicate
+                      login that is rejected and torn down, Register of an existing name);
                       the change takes effect atomically at some instant inside the call
                       (silent step Apply)
      r.call / r.ret   a listing call and what it returned: the list (Players, Servers,
@@ -31,13 +33,15 @@ ToSet(s) == {s[i] : i \in 1..Len(s)}
 
 HInit(init) == m = init /\ wop = <<>> /\ rd = <<>>
 
-WCall(t, op, k) == /\ t \notin DOMAIN wop /\ op \in {"add", "del"}
+WCall(t, op, k) == /\ t \notin DOMAIN wop /\ op \in {"add", "del", "dup"}
                    /\ wop' = Put(wop, t, [op |-> op, k |-> k, done |-> FALSE])
                    /\ UNCHANGED <<m, rd>>
 
 \* silent: the pending change of t takes effect
 Apply(t) == /\ t \in DOMAIN wop /\ ~wop[t].done
-            /\ m' = IF wop[t].op = "add" THEN m \cup {wop[t].k} ELSE m \ {wop[t].k}
+            /\ m' = IF wop[t].op = "add" THEN m \cup {wop[t].k}
+                    ELSE IF wop[t].op = "del" THEN m \ {wop[t].k}
+                    ELSE m          \* "dup": a refused duplicate changes nothing
             /\ wop' = [wop EXCEPT ![t].done = TRUE]
             /\ rd' = [r \in DOMAIN rd |-> rd[r] \cup {m'}]
 
